@@ -65,7 +65,11 @@ fn main() {
         verif_dir: verif_dir.clone(),
     };
     // Panics of the subject are caught and classified; keep their default message off stderr.
-    std::panic::set_hook(Box::new(|_| {}));
+    std::panic::set_hook(Box::new(|info| {
+        if !librun::in_subject() {
+            eprintln!("MACHINERY: harness panic: {info}");
+        }
+    }));
 
     if id == "BENCH" {
         props::rules::bench_git(1);
@@ -132,7 +136,7 @@ fn main() {
     let mut violations = 0usize;
     let replay_dir = verif_dir.join("replays").join(&id);
     for (fingerprint, (count, stored)) in &failures {
-        if let Some(what) = known.iter().find(|(fp, _)| fp == fingerprint).map(|(_, w)| w.clone()) {
+        if let Some(what) = known.iter().find(|(matcher, _)| matcher.matches(fingerprint)).map(|(_, w)| w.clone()) {
             println!("KNOWN-FINDING: property={id} {what} [fingerprint {fingerprint}; {count} explored cases]");
             known_hit.push(fingerprint.clone());
             continue;
@@ -256,8 +260,23 @@ fn sanitize(s: &str) -> String {
     out
 }
 
-/// `known_findings.json`: {"known": [{"property","fingerprint","what",...}], "fixed": [...]}.
-fn load_known(cfg: &Cfg, id: &str) -> Vec<(String, String)> {
+enum Matcher {
+    Exact(String),
+    Pattern(regex::Regex),
+}
+
+impl Matcher {
+    fn matches(&self, fingerprint: &str) -> bool {
+        match self {
+            Matcher::Exact(s) => s == fingerprint,
+            Matcher::Pattern(re) => re.is_match(fingerprint),
+        }
+    }
+}
+
+/// `known_findings.json`: {"known": [{"property", "fingerprint" | "pattern", "what", ...}], "fixed": [...]}.
+/// `pattern` is a regular expression that must match the whole fingerprint.
+fn load_known(cfg: &Cfg, id: &str) -> Vec<(Matcher, String)> {
     let path = cfg.verif_dir.join("known_findings.json");
     let Ok(text) = std::fs::read_to_string(path) else {
         return Vec::new();
@@ -271,7 +290,14 @@ fn load_known(cfg: &Cfg, id: &str) -> Vec<(String, String)> {
         .map(|list| {
             list.iter()
                 .filter(|e| e["property"].as_str() == Some(id))
-                .filter_map(|e| Some((e["fingerprint"].as_str()?.to_string(), e["what"].as_str()?.to_string())))
+                .filter_map(|e| {
+                    let matcher = match (e["fingerprint"].as_str(), e["pattern"].as_str()) {
+                        (Some(f), _) => Matcher::Exact(f.to_string()),
+                        (None, Some(p)) => Matcher::Pattern(regex::Regex::new(&format!("^(?:{p})$")).ok()?),
+                        _ => return None,
+                    };
+                    Some((matcher, e["what"].as_str()?.to_string()))
+                })
                 .collect()
         })
         .unwrap_or_default()
